@@ -200,6 +200,13 @@ def run_property(prop, tier, seed, replay=None):
     violations = []      # (replay path, suffix)
     known_hits = {}
 
+    # all shrinking of one run shares a budget (a broken tree with many hanging cases must not turn a quick
+    # check into a long one; an un-shrunk replay is still a replay)
+    t_shrink0 = time.time()
+
+    def shrink_left():
+        return max(5, min(60, 150 - (time.time() - t_shrink0)))
+
     def rerun(cands):
         i2, m2, _ = run_all(prop, cands)
         return i2, m2
@@ -212,16 +219,19 @@ def run_property(prop, tier, seed, replay=None):
                 if kind == "hang":
                     res.append(any(b == "HANG" for b in i2.get(c.cid, {}).values()))
                     continue
-                f = prop.oracle(c, i2.get(c.cid, {}), m2.get(c.cid, {}))
+                try:
+                    f = prop.oracle(c, i2.get(c.cid, {}), m2.get(c.cid, {}))
+                except Exception:        # a shrunk candidate the oracle cannot read is simply not a failing one
+                    f = None
                 res.append(bool(f) and f["kind"] == kind)
             return res
-        return core.shrink(case, failing, prop.shrink_candidates)
+        return core.shrink(case, failing, prop.shrink_candidates, max_seconds=shrink_left())
 
     def shrink_disagreement(case):
         def failing(cands):
             i2, m2 = rerun(cands)
             return [core.compare_case(c, i2, m2, prop.project, prop.compare_from(c)) is not None for c in cands]
-        return core.shrink(case, failing, prop.shrink_candidates)
+        return core.shrink(case, failing, prop.shrink_candidates, max_seconds=shrink_left())
 
     # group failures by signature of the un-shrunk case first to bound the work
     done_sigs = set()
